@@ -46,6 +46,7 @@ type Engine struct {
 	tu       *typeUniverse
 	withLemmas bool
 	pureBody   map[*ssa.Function]bool
+	cache      *proofCache
 }
 
 type Options struct {
@@ -440,4 +441,12 @@ func (e *Engine) resolveType(expr string, pkgPath string) (types.Type, error) {
 		return found, nil
 	}
 	return nil, fmt.Errorf("cannot resolve type %q (package %s)", expr, pkgPath)
+}
+
+func (e *Engine) stringAxiomsFor(ts []*Term) []*Term {
+	used := map[string]bool{}
+	for _, t := range ts {
+		collectSyms(t, map[string]bool{}, used)
+	}
+	return e.stringAxioms(used)
 }
